@@ -31,7 +31,8 @@ OpLine(e) ==
         \* an expiry given as an offset is stored as call time + offset: the call may fall into the next second
         relok == o.rel /\ want.live /\ want.dl > 0 /\ ob.cls = "ok" /\ ob.exp = want.dl + 1
         \* SetPres on a key that has never been written: the statements do not say which expiry applies
-        free == o.op = "SetPres" /\ ~docs[o.coll][o.key].row
+        free == (o.op = "SetPres" /\ ~docs[o.coll][o.key].row)
+                \/ (o.op = "Incr" /\ docs[o.coll][o.key].live /\ ob.cls = "ok" /\ ob.exp = docs[o.coll][o.key].dl)
         nd == IF relok \/ (free /\ ob.cls = "ok") THEN [want EXCEPT !.dl = ob.exp] ELSE want
         newdocs == [docs EXCEPT ![o.coll][o.key] = nd]
         fDoc(c, k) ==
